@@ -154,7 +154,9 @@ pub(crate) fn iso_days_in_month(year: i32, month: u8) -> u8 {
     match month {
         1 | 3 | 5 | 7 | 8 | 10 | 12 => 31,
         4 | 6 | 9 | 11 => 30,
-        2 => 28 + mathematical_in_leap_year(epoch_time_for_year(year)) as u8,
+        // The leap-year rule only needs the year itself; going through the epoch time of the
+        // year overflows for years far outside the supported range.
+        2 => 28 + (mathematical_days_in_year(year) - 365) as u8,
         _ => unreachable!("ISODaysInMonth panicking is an implementation error."),
     }
 }
